@@ -84,6 +84,29 @@ def _vmon_once(args, timeout):
             pass
 
 
+def _vmon_once_env(args, timeout, env_extra):
+    out = tempfile.NamedTemporaryFile(prefix='vmon-', suffix='.json', delete=False, dir=os.path.join(ROOT, 'work'))
+    out.close()
+    env = dict(os.environ); env.update(env_extra)
+    try:
+        p = subprocess.run([VMON] + args + ['--out', out.name], stdout=subprocess.PIPE, stderr=subprocess.PIPE, text=True, timeout=timeout, env=env)
+        if p.returncode != 0:
+            return {'died': True, 'returncode': p.returncode, 'stderr': p.stderr[-2000:], 'args': args}
+        return json.load(open(out.name))
+    except subprocess.TimeoutExpired:
+        return {'died': True, 'returncode': 'timeout', 'stderr': '', 'args': args}
+    finally:
+        try:
+            os.unlink(out.name)
+        except OSError:
+            pass
+
+
+def _third_party_scanner_abort(r):
+    """an assertion of a grammar's external scanner (C code of a tree-sitter-<lang> crate) aborted the process"""
+    return r.get('returncode') == -6 and 'scanner.c' in r.get('stderr', '') and 'Assertion' in r.get('stderr', '')
+
+
 def run_vmon(monitor, ctx, shards=None, extra=None):
     os.makedirs(os.path.join(ROOT, 'work'), exist_ok=True)
     n = shards or NCPU
@@ -96,6 +119,21 @@ def run_vmon(monitor, ctx, shards=None, extra=None):
         res = [j.result() for j in jobs]
     out = []
     for r in res:
+        if r.get('died') and _third_party_scanner_abort(r):
+            # A C assertion inside a grammar's scanner kills the whole shard.  It is third-party code, not a verdict on
+            # ast-grep: the shard is repeated one language at a time, the languages that abort again are dropped with a
+            # note (inconclusive), the others keep their results.
+            langs = sorted(os.listdir(os.path.join(ROOT, 'corpus')))
+            with cf.ThreadPoolExecutor(max_workers=NCPU) as ex:
+                subs = list(ex.map(lambda l: (l, _vmon_once_env(r['args'], timeout, {'VERIF_LANGS': l})), langs))
+            for l, sub in subs:
+                if sub.get('died'):
+                    if _third_party_scanner_abort(sub):
+                        out.append({'inconclusive': 1, 'notes': [f"third-party observation: the {l} grammar's scanner aborts on an assertion under {monitor} ({sub['stderr'].strip().splitlines()[-1][:160]}); that language is dropped from shard {r['args'][r['args'].index('--shard') + 1]}"]})
+                        continue
+                    raise HarnessError(f"vmon {monitor} shard died: rc={sub['returncode']} {sub['stderr'][-400:]}")
+                out.append(sub)
+            continue
         if r.get('died'):
             # a dying shard (abort, stack overflow, kill) is reported by the monitor-specific
             # drivers that expect it (C11); here it is a harness error, never a verdict
